@@ -52,7 +52,10 @@ func (RootMeta) ViewFromBacking(node Node, _ BackingHook) (View, error) {
 	if !ok {
 		return nil, fmt.Errorf("node is not a root: %v", node)
 	} else {
-		return (*RootView)(root), nil
+		// the view holds its own copy: its in-place setters (SetBacking, UnmarshalText)
+		// must not write into the (shared, immutable) tree
+		v := RootView(*root)
+		return &v, nil
 	}
 }
 
@@ -75,9 +78,10 @@ func (r *RootView) Type() TypeDef {
 	return RootType
 }
 
-// Backing, a root can be used as a view representing itself.
+// Backing returns a node holding the current value; the node stays as it is when the view changes later.
 func (r *RootView) Backing() Node {
-	return (*Root)(r)
+	n := Root(*r)
+	return &n
 }
 
 func (r *RootView) SetBacking(b Node) error {
@@ -90,7 +94,8 @@ func (r *RootView) SetBacking(b Node) error {
 }
 
 func (r *RootView) Copy() (View, error) {
-	return r, nil
+	c := *r
+	return &c, nil
 }
 
 func (r *RootView) ValueByteLength() (uint64, error) {
